@@ -248,4 +248,173 @@ theorem sun_compact_defining_product (cs : A → K × K) (hf : K) (zero : A) (h0
     simp only
     rw [this, runM_phases]
 
+
+/-! ### the emitted circuit as a product of Mathlib matrices, composed with C17's `reconstruct` -/
+section matrices
+variable {n : Nat}
+
+/-- the embedded `T` / `Ti` block of a factor entry as a matrix -/
+def matT (n : Nat) (cs : A → K × K) (e : Nat × Nat × A × A) : Matrix (Fin n) (Fin n) (Cx K) :=
+  toM n (embed (blkT (cs e.2.2.1).1 (cs e.2.2.1).2 (eOf cs e.2.2.2)) e.1 e.2.1)
+def matTi (n : Nat) (cs : A → K × K) (e : Nat × Nat × A × A) : Matrix (Fin n) (Fin n) (Cx K) :=
+  toM n (embed (blkTi (cs e.2.2.1).1 (cs e.2.2.1).2 (eOf cs e.2.2.2)) e.1 e.2.1)
+/-- the phase shifter of one local phase -/
+def matP (n : Nat) (cs : A → K × K) (qn : A × Nat) : Matrix (Fin n) (Fin n) (Cx K) :=
+  Matrix.diagonal (phaseVec n (eOf cs qn.1) qn.2)
+
+/-- entries address two distinct modes of the register -/
+def Inside (n : Nat) (l : List (Nat × Nat × A × A)) : Prop := ∀ e ∈ l, e.1 < n ∧ e.2.1 < n ∧ e.1 ≠ e.2.1
+
+omit [DecidableEq A] [Neg A] in
+theorem toM_prodT (cs : A → K × K) (l : List (Nat × Nat × A × A)) (hl : Inside n l) (W : CMat K) :
+    toM n (prodT cs l W) = prodL ((l.map (matT n cs)).reverse) * toM n W := by
+  induction l generalizing W with
+  | nil => simp [prodT, prodL]
+  | cons e l ih =>
+    simp only [prodT, List.foldl_cons, List.map_cons, List.reverse_cons, prodL_append] at ih ⊢
+    rw [ih (fun e' he' => hl e' (by simp [he']))]
+    obtain ⟨h1, h2, h3⟩ := hl e (by simp)
+    rw [toM_leftMix _ _ _ h1 h2 h3]
+    simp [prodL, matT, mul_assoc]
+
+omit [DecidableEq A] [Neg A] in
+theorem toM_prodTi (cs : A → K × K) (l : List (Nat × Nat × A × A)) (hl : Inside n l) (W : CMat K) :
+    toM n (prodTi cs l W) = prodL ((l.map (matTi n cs)).reverse) * toM n W := by
+  induction l generalizing W with
+  | nil => simp [prodTi, prodL]
+  | cons e l ih =>
+    simp only [prodTi, List.foldl_cons, List.map_cons, List.reverse_cons, prodL_append] at ih ⊢
+    rw [ih (fun e' he' => hl e' (by simp [he']))]
+    obtain ⟨h1, h2, h3⟩ := hl e (by simp)
+    rw [toM_leftMix _ _ _ h1 h2 h3]
+    simp [prodL, matTi, mul_assoc]
+
+omit [DecidableEq A] [Neg A] in
+theorem toM_prodPhase (cs : A → K × K) (l : List (A × Nat)) (W : CMat K) :
+    toM n (prodPhase cs l W) = prodL ((l.map (matP n cs)).reverse) * toM n W := by
+  induction l generalizing W with
+  | nil => simp [prodPhase, prodL]
+  | cons e l ih =>
+    simp only [prodPhase, List.foldl_cons, List.map_cons, List.reverse_cons, prodL_append] at ih ⊢
+    rw [ih, toM_leftPhase]
+    simp [prodL, matP, mul_assoc]
+
+omit [DecidableEq A] [Neg A] in
+theorem toM_idM : toM n (idM : CMat K) = 1 := by
+  ext i j
+  simp [toM, idM, Matrix.one_apply, Fin.ext_iff]
+
+/-- **the emitted Clements circuit as a matrix product**: `Ti(BS2[0]) ⋯ Ti(BS2[-1]) · P(R[-1]) ⋯ P(R[0]) · T(BS1[-1]) ⋯ T(BS1[0])`
+in `Matrix (Fin n) (Fin n) (Cx K)` (targets = the register itself, angles as the source clips them) -/
+theorem emitted_matrix_product (cs : A → K × K) (hf : K) (zero : A) (h0 : cs zero = (1, 0))
+    (hneg : ∀ a, cs (-a) = ((cs a).1, -(cs a).2)) (clip mod2pi : A → A) (identity : Bool) (reg : List Nat)
+    (BS1 : List (Nat × Nat × A × A)) (R : List (Option A)) (BS2 : List (Nat × Nat × A × A))
+    (h1 : Inside n (relab reg clip BS1)) (h2 : Inside n (relab reg clip BS2)) :
+    toM n (runM cs hf (interferometerCmds zero clip mod2pi identity false false reg BS1 R (some BS2)) idM) =
+      prodL ((relab reg clip BS2).map (matTi n cs)) *
+        prodL (((phaseList zero mod2pi reg R).map (matP n cs)).reverse) *
+        prodL (((relab reg clip BS1).map (matT n cs)).reverse) := by
+  have g1 : ∀ e ∈ BS1, rg reg e.1 ≠ rg reg e.2.1 := fun e he =>
+    (h1 (rg reg e.1, rg reg e.2.1, clip e.2.2.1, clip e.2.2.2) (by simp only [relab, List.mem_map]; exact ⟨e, he, rfl⟩)).2.2
+  have g2 : ∀ e ∈ BS2, rg reg e.1 ≠ rg reg e.2.1 := fun e he =>
+    (h2 (rg reg e.1, rg reg e.2.1, clip e.2.2.1, clip e.2.2.2) (by simp only [relab, List.mem_map]; exact ⟨e, he, rfl⟩)).2.2
+  rw [interferometer_defining_product cs hf zero h0 hneg clip mod2pi identity reg BS1 R BS2 g1 g2 idM]
+  have h2' : Inside n (relab reg clip BS2.reverse) := by
+    intro e he
+    apply h2 e
+    simp only [relab, List.mem_map, List.mem_reverse] at he ⊢
+    exact he
+  rw [toM_prodTi cs _ h2', toM_prodPhase, toM_prodT cs _ h1, toM_idM]
+  simp only [relab, List.map_reverse, List.reverse_reverse, mul_one, mul_assoc]
+
+/-- **composition with C17's `reconstruct`**: let `l` be the record of an elimination run on `U` (left factors `t`,
+right factors `t'`, as `decompositions.rectangular` performs it) ending in the matrix `D`; if the returned factor lists are
+that record — `BS2` lists the inverses of the left factors as `Ti` blocks, `BS1` the inverses of the right factors as `T`
+blocks (in reverse order), and the local phases multiply to `D` — then the emitted circuit's unitary **is `U`**. -/
+theorem interferometer_from_elimination (cs : A → K × K) (hf : K) (zero : A) (h0 : cs zero = (1, 0))
+    (hneg : ∀ a, cs (-a) = ((cs a).1, -(cs a).2)) (clip mod2pi : A → A) (identity : Bool) (reg : List Nat)
+    (BS1 : List (Nat × Nat × A × A)) (R : List (Option A)) (BS2 : List (Nat × Nat × A × A))
+    (h1 : Inside n (relab reg clip BS1)) (h2 : Inside n (relab reg clip BS2))
+    (U D : Matrix (Fin n) (Fin n) (Cx K)) (l : List (Matrix (Fin n) (Fin n) (Cx K) ⊕ Matrix (Fin n) (Fin n) (Cx K)))
+    (inv : Matrix (Fin n) (Fin n) (Cx K) → Matrix (Fin n) (Fin n) (Cx K))
+    (hl : ∀ t ∈ lefts l, inv t * t = 1) (hr : ∀ t ∈ rights l, t * inv t = 1) (hrun : runElim U l = D)
+    (hBS2 : (lefts l).map inv = (relab reg clip BS2).map (matTi n cs))
+    (hBS1 : (rights l).reverse.map inv = ((relab reg clip BS1).map (matT n cs)).reverse)
+    (hD : D = prodL (((phaseList zero mod2pi reg R).map (matP n cs)).reverse)) :
+    toM n (runM cs hf (interferometerCmds zero clip mod2pi identity false false reg BS1 R (some BS2)) idM) = U := by
+  rw [emitted_matrix_product cs hf zero h0 hneg clip mod2pi identity reg BS1 R BS2 h1 h2]
+  rw [reconstruct_eq U D l inv hl hr hrun, hBS2, hBS1, hD]
+
+end matrices
+
+
+/-! ### the compact meshes -/
+section compact
+variable [Add A] [Sub A]
+
+/-- command of an item: a phase shifter is an `Rgate`, an sMZI `M(σ, δ)` is `sMZgate(σ + δ, σ − δ)` -/
+def CItem.toCmd (reg : List Nat) : CItem A → MCmd A
+  | .phase φ j => ⟨.R φ, [rg reg j]⟩
+  | .smzi σ δ n => ⟨.sMZ (σ + δ) (σ - δ), [rg reg n, rg reg (n + 1)]⟩
+
+omit [DecidableEq A] [Neg A] in
+theorem rectCompactCmds_eq (reg : List Nat) (m : Nat) (phiIns : Nat → A) (phiEdges : Nat → Nat → A)
+    (deltas sigmas : Nat → Nat → A) (phiOuts : List (Nat × A)) :
+    rectCompactCmds reg m phiIns phiEdges deltas sigmas phiOuts =
+      (rectCompactSpec m phiIns phiEdges deltas sigmas phiOuts).map (CItem.toCmd reg) := by
+  simp only [rectCompactCmds, rectCompactSpec, List.map_append, List.map_map, List.map_flatMap]
+  congr 1
+  congr 1
+  congr 1
+  funext layer
+  split <;> simp [CItem.toCmd, Function.comp_def]
+
+omit [DecidableEq A] [Neg A] in
+theorem triCompactCmds_eq (reg : List Nat) (m : Nat) (phiIns : Nat → A) (deltas sigmas : Nat → Nat → A) (zetas : Nat → A) :
+    triCompactCmds reg m phiIns deltas sigmas zetas =
+      (triCompactSpec m phiIns deltas sigmas zetas).map (CItem.toCmd reg) := by
+  simp only [triCompactCmds, triCompactSpec, List.map_append, List.map_map, List.map_flatMap, List.map_cons]
+  rfl
+
+/-- angle addition, the link between the two internal phases of the sMZgate and `(σ, δ)` -/
+def AngleAdd (cs : A → K × K) : Prop := ∀ σ δ : A,
+  cs (σ + δ) = ((cs σ).1 * (cs δ).1 - (cs σ).2 * (cs δ).2, (cs σ).2 * (cs δ).1 + (cs σ).1 * (cs δ).2) ∧
+  cs (σ - δ) = ((cs σ).1 * (cs δ).1 + (cs σ).2 * (cs δ).2, (cs σ).2 * (cs δ).1 - (cs σ).1 * (cs δ).2)
+
+omit [DecidableEq A] [Neg A] in
+theorem runM_items (cs : A → K × K) (hf : K) (hh : hf + hf = 1) (hadd : AngleAdd cs) (reg : List Nat)
+    (l : List (CItem A)) (W : CMat K) : runM cs hf (l.map (CItem.toCmd reg)) W = runSpec cs reg l W := by
+  induction l generalizing W with
+  | nil => rfl
+  | cons it l ih =>
+    simp only [List.map_cons, runM, List.foldl_cons, runSpec] at ih ⊢
+    rw [← ih]
+    congr 1
+    cases it with
+    | phase φ j => rfl
+    | smzi σ δ k =>
+      simp only [CItem.toCmd, applyM]
+      have := smz_block hf (cs σ).1 (cs σ).2 (cs δ).1 (cs δ).2 hh
+      simp only [eOf, (hadd σ δ).1, (hadd σ δ).2]
+      rw [this]
+
+omit [DecidableEq A] [Neg A] in
+/-- **`rectangular_compact`**: the unitary of the emitted circuit is the mesh's defining product of `P` and `M` blocks -/
+theorem rect_compact_defining_product (cs : A → K × K) (hf : K) (hh : hf + hf = 1) (hadd : AngleAdd cs) (reg : List Nat)
+    (m : Nat) (phiIns : Nat → A) (phiEdges : Nat → Nat → A) (deltas sigmas : Nat → Nat → A) (phiOuts : List (Nat × A))
+    (W : CMat K) :
+    runM cs hf (rectCompactCmds reg m phiIns phiEdges deltas sigmas phiOuts) W =
+      runSpec cs reg (rectCompactSpec m phiIns phiEdges deltas sigmas phiOuts) W := by
+  rw [rectCompactCmds_eq, runM_items cs hf hh hadd]
+
+omit [DecidableEq A] [Neg A] in
+/-- **`triangular_compact`**: likewise -/
+theorem tri_compact_defining_product (cs : A → K × K) (hf : K) (hh : hf + hf = 1) (hadd : AngleAdd cs) (reg : List Nat)
+    (m : Nat) (phiIns : Nat → A) (deltas sigmas : Nat → Nat → A) (zetas : Nat → A) (W : CMat K) :
+    runM cs hf (triCompactCmds reg m phiIns deltas sigmas zetas) W =
+      runSpec cs reg (triCompactSpec m phiIns deltas sigmas zetas) W := by
+  rw [triCompactCmds_eq, runM_items cs hf hh hadd]
+
+end compact
+
 end SFV.Decompose
